@@ -225,7 +225,7 @@ def main(argv=None):
     ap.add_argument("--replay")
     ap.add_argument("--rebaseline", action="store_true")
     ap.add_argument("--keep", action="store_true")
-    ap.add_argument("--only", help="comma-separated engines (V,K,T,S)", default="V,K,T,S")
+    ap.add_argument("--only", help="comma-separated engines (V,K,T,S)", default="V,K,T,S,F")
     args = ap.parse_args(argv)
     prop = args.prop
     seed = int(os.environ.get("VERIF_SEED", "0") or 0)
@@ -283,6 +283,12 @@ def main(argv=None):
         import engine_t
 
         rs, info = engine_t.run_for(prop, S, outdir)
+        results += rs
+        infos += info
+    if "F" in engines:
+        import engine_f
+
+        rs, info = engine_f.run_for(prop, S, outdir, rebaseline=False)
         results += rs
         infos += info
     if "S" in engines:
@@ -354,7 +360,7 @@ def write_evidence(prop, tier, seed, results, infos, violations, undecided, know
                 trusted.append(tt)
     by_backend = {}
     for r in discharged:
-        k = {"V": "verus+z3", "K": "kani+cbmc", "T": "z3 (recursion measures)", "S": "rustc (auto traits)"}.get(r.engine, r.engine)
+        k = {"V": "verus+z3", "K": "kani+cbmc", "T": "z3 (recursion measures)", "S": "rustc (auto traits)", "F": "frame audit (inventory)"}.get(r.engine, r.engine)
         by_backend[k] = by_backend.get(k, 0) + 1
     rewrites = {}
     for i in infos:
